@@ -37,7 +37,10 @@ CFG = {
         title="elimination only on, and always on, a confidence-region certificate",
     ),
     "C03": dict(
-        algos=ELIM,
+        algos=ELIM + ["Auer"],
+        # Auer has no solver: a dedicated heteroscedastic batch is nearly free and is where
+        # per-design widths differ (the positional-width defect needed ~1 in 200 such runs)
+        extra=[({"algos": ["Auer"], "envs": ["real_sim", "noise_adv"]}, 900, 20000)],
         props=["C03"],
         quick=260,
         thorough=9000,
@@ -283,6 +286,12 @@ def run_check(prop: str, tier: str, master: int, n_runs=None, budget_s=None, cfg
     n = int(n_runs or cfg[tier])
     family = f"{prop}-{tier}"
     tasks = [(prop, family, i, master, cfg_over) for i in range(n)]
+    if not (cfg_over or {}).get("algos"):
+        for k, (over, nq, nt) in enumerate(cfg.get("extra", [])):
+            ne = nq if tier == "quick" else nt
+            if n_runs:
+                ne = max(1, ne * n // max(1, cfg[tier]))
+            tasks += [(prop, f"{family}-extra{k}", n + 100000 * (k + 1) + i, master, over) for i in range(ne)]
     if budget_s is None:
         budget_s = float(os.environ.get("VERIF_BUDGET_S", 0) or (170 if tier == "quick" else 2400))
     results, errors, skipped = core.run_pool(worker, tasks, cap_s=900, budget_s=budget_s)
@@ -333,7 +342,11 @@ def run_check(prop: str, tier: str, master: int, n_runs=None, budget_s=None, cfg
         r, v = lst[0]
         sc = r.get("scenario")
         path = None
-        if sc is not None:
+        known = core.match_open_finding(core.load_known_findings(), prop, sig) is not None
+        if sc is not None and known:
+            # a listed finding: keep the raw scenario as replay, do not spend the budget shrinking it
+            path = core.write_replay(prop, sc.get("seed"), sig, {"kind": "run-level", "scenario": sc, "expect": {"signature": sig, "round": v.get("round"), "phase": v.get("phase"), "digest": r["digest"]}, "detail": v.get("detail"), "minimisation": {"minimised": False, "reason": "matches an open known finding"}})
+        elif sc is not None:
             msc, got, info = minimise(sc, sig, budget_s=60 if tier == "quick" else 180)
             if got is not None:
                 path = make_replay(prop, msc, sig, info, got[0], got[1])
